@@ -3,8 +3,8 @@ from props import sched_common as sc, sched_oracles as so
 
 PID = 'C01'
 META = {
-    'text': 'C01_doing: for every engine graph and every history from boot (requests, ticks, replies of any outcome in any order, worker events, rebuilds), the task messages made by any dispatch tick have no ancestor with the same target or the all-targets marker pending or doing, and an all-targets unit has ancestors with nothing pending/doing -- proved by invariants (queue membership, do/jobs empty between events, analysis targets) lifted over run by induction. Ghost level (really in flight): C01_full_partial under the hypothesis that the ancestor\'s doing set covers what it has in flight; C01_full_refuted carries the witness of the open known finding (purge clears doing of an executing descendant). Model tied to next_job_batch/dispatch/_put/Hand._res by step correspondence on generated histories; the oracle keeps its own in-flight multiset from the fake transports.',
-    'note': 'Trusted: Coq kernel; Sched.v + drive_sched.py correspondence; ancestry = transitive closure is the checked hypothesis wf_graphb (C09). Known finding C01/release-while-ancestor-inflight stays open (purge semantics pinned by the passing test test_10.test_hand__res). Promotion engine off.',
+    'text': 'C01_doing: for every engine graph and every history from boot (requests, ticks, replies of any outcome in any order, worker events, rebuilds), the task messages made by any dispatch tick have no ancestor with the same target or the all-targets marker pending or doing, and an all-targets unit has ancestors with nothing pending/doing -- proved by invariants (queue membership, do/jobs empty between events, analysis targets) lifted over run by induction. Ghost level (really in flight): C01_full_partial under the hypothesis that the ancestor\'s doing set covers what it has in flight; C01_full_refuted carries the witness of the open known finding (purge clears doing of an executing descendant). Model tied to next_job_batch/dispatch/_put/Hand._res by step correspondence on generated histories; the oracle keeps its own in-flight multiset from the fake transports. HISTORIES WITH REFUSED RUN IDS (Model/SchedFault.v, xrun over list xev; Proofs/SchedFaultInv.v): C01_release_faults -- in every history, at every dispatch with or without a refused db.next(), a unit is moved todo->doing only when no ancestor has its target or the all-targets marker pending/doing; C01_doing_faults_partial -- every task message made by the dispatch ending a history is for a unit that this dispatch or an EARLIER one of the same history (whose request was refused: the job was kept with its do set) released under that condition (origin invariant over histories); C01_doing_faults_refuted -- the condition need not hold any more when the kept job is finally sent (a0 requested between the refused dispatch and the retry: a1 is sent while a0 has the target pending; replayed on the real farm.dispatch by props/C04.py fault_witness, candidate finding).',
+    'note': 'Trusted: Coq kernel; Sched.v + drive_sched.py correspondence; ancestry = transitive closure is the checked hypothesis wf_graphb (C09). Known finding C01/release-while-ancestor-inflight stays open (purge semantics pinned by the passing test test_10.test_hand__res). Promotion engine off. With refused run ids the statement is about the release moment (partial), see C01_doing_faults_refuted.',
     'technique': 'Coq proof (invariants + induction over histories) over hand-written executable model + model/implementation correspondence + implementation-side ghost oracle',
 }
 
